@@ -22,7 +22,7 @@ VARIABLES
   parts,   \* Seq([hash, st]) : outgoing sendpay parts; index = part id
   pay,     \* [Hash -> [iss, run]] pay commands issued-not-executed / running at the node
   ds,      \* [Hash -> [st, a, t, gen, key]] state record of the datastore
-  att,     \* [Hash -> [AttemptId -> {"open","failed","ok"}]] attempt records
+  att,     \* [Hash -> [AttemptId -> [st: {"open","failed","ok"}, gen]]] attempt records
   now,     \* wall clock = monotonic clock, in ticks (seconds)
   height,  \* chain height known to the plugin
   panics,  \* number of panics observed in plugin code
@@ -74,7 +74,7 @@ First(hf, S) == CHOOSE i \in S : \A j \in S : hf[i].ord <= hf[j].ord
 (* generation argument.  Result: [ok, gen] and whether the write applies.   *)
 
 DsPresent(h, w) == IF w.key = "state" THEN ds[h].st # "absent" ELSE w.a \in DOMAIN att[h]
-DsCurGen(h, w)  == IF w.key = "state" THEN ds[h].gen ELSE 0
+DsCurGen(h, w)  == IF w.key = "state" THEN ds[h].gen ELSE IF w.a \in DOMAIN att[h] THEN att[h][w.a].gen ELSE 0
 
 DsVerdict(h, w) ==
   LET present == DsPresent(h, w) IN
@@ -82,7 +82,7 @@ DsVerdict(h, w) ==
   ELSE IF w.mode \in {"mr", "ma"} /\ ~present THEN [ok |-> FALSE, gen |-> 0]
   ELSE IF w.gen # -1 /\ ~present THEN [ok |-> FALSE, gen |-> 0]
   ELSE IF w.gen # -1 /\ w.gen # DsCurGen(h, w) THEN [ok |-> FALSE, gen |-> 0]
-  ELSE [ok |-> TRUE, gen |-> IF present /\ w.key = "state" THEN DsCurGen(h, w) + 1 ELSE 0]
+  ELSE [ok |-> TRUE, gen |-> IF present THEN DsCurGen(h, w) + 1 ELSE 0]
 
 \* the write is applied iff the verdict is ok and the fault is not "reject"
 DsApplied(h, w, fault) == DsVerdict(h, w).ok /\ fault # "reject"
@@ -100,7 +100,7 @@ DsAfter(h, w, fault) ==
 
 AttAfter(h, w, fault) ==
   IF w.key = "att" /\ DsApplied(h, w, fault)
-  THEN [att EXCEPT ![h] = [x \in (DOMAIN @) \cup {w.a} |-> IF x = w.a THEN w.val.st ELSE @[x]]]
+  THEN [att EXCEPT ![h] = [x \in (DOMAIN @) \cup {w.a} |-> IF x = w.a THEN [st |-> w.val.st, gen |-> DsVerdict(h, w).gen] ELSE @[x]]]
   ELSE att
 
 \* abstract result of executing call c under `fault` (compared with the trace)
